@@ -1004,7 +1004,6 @@ def c13_runner(prop, tier, seed, scratch, spec):
     q = tier == "quick"
     r = random.Random(seed)
     open_f, _ = vlib.load_findings()
-    d12_open = any(f.get("id") == "D12" for f in open_f)
     obs = []
     names = []
     for name, kind, lines in proccheck.scenarios(scratch, q, r):
@@ -1040,12 +1039,7 @@ def c13_runner(prop, tier, seed, scratch, spec):
             f = hdr.split(" ")
             name, kind = f[1], f[2]
             parked = (re.search(r"parked=(\S+)", hdr) or [None, ""])[1]
-            # D12: the file did not exist; the creator was parked between create and lock (after `open`
-            # or before the initial `write`), and the late opener failed or got in early
-            is_d12 = kind == "create" and re.search(r"@(open1|write1)$", parked) is not None and cls in ("failed", "overlap")
-            if is_d12 and d12_open:
-                known.append("D12 %s: %s (creator parked between create and lock)" % (name, text[:120]))
-                continue
+            # (D12 — creator parked between create and lock — is repaired; nothing is filtered here any more)
             if (name, cls) in seen:
                 continue
             seen.add((name, cls))
@@ -1084,7 +1078,7 @@ def c13_replay(prop, replay, scratch):
     return 0
 
 
-PROPS["C13"] = {"runner": c13_runner, "replay": c13_replay, "level": "other", "assumptions": ["A-lock: flock advisory-lock semantics (same host, not NFS)"]}
+PROPS["C13"] = {"runner": c13_runner, "replay": c13_replay, "level": "proof", "assumptions": ["A-lock: flock advisory-lock semantics (same host, not NFS)"]}
 
 
 # ---- C14: API programs ----------------------------------------------------------------------------------------
